@@ -212,7 +212,7 @@ pub struct Tmpl {
     pub functions: bool,
 }
 
-pub const TEMPLATES: [&str; 19] = [
+pub const TEMPLATES: [&str; 22] = [
     "A + [1, 2].map(A, A * 2)[0] + A",
     "[[1, 2], [3]].map(A, A.map(B, B + 1))",
     "[1].map(A, A)[0] + A",
@@ -235,6 +235,10 @@ pub const TEMPLATES: [&str; 19] = [
     "[1, 1u, 1.0, 1, 1.0, 1u].map(A, [A])",
     "[2].map(A, [2u, 2.0, 2].map(A, [A]))",
     "[1000u, 2000u].map(A, [[1000.0, 2000.0, 3000.0].map(B, [A, B]), [A]])",
+    // the body mentions the iteration variable on both sides of an equality
+    "[0, 2, 3].exists(A, A == A * A)",
+    "[2, 3].map(A, [1, 5].exists(A, A == A * A))",
+    "[1, 5, 25].exists(B, A * A == B) || [1, 5].all(A, [1, 25].exists(B, B == A * A))",
 ];
 
 fn instantiate(t: &Tmpl) -> String {
@@ -295,7 +299,14 @@ fn template_expr(t: &Tmpl) -> E {
         15 => mac(Mac::Map, l(vec![u(1000), f(2000.0), u(3000), f(1000.0), u(2000), f(3000.0)]), &a, l(vec![v(&a)])),
         16 => mac(Mac::Map, l(vec![i(1), u(1), f(1.0), i(1), f(1.0), u(1)]), &a, l(vec![v(&a)])),
         17 => mac(Mac::Map, l(vec![i(2)]), &a, mac(Mac::Map, l(vec![u(2), f(2.0), i(2)]), &a, l(vec![v(&a)]))),
-        _ => mac(Mac::Map, l(vec![u(1000), u(2000)]), &a, l(vec![mac(Mac::Map, l(vec![f(1000.0), f(2000.0), f(3000.0)]), &bb, l(vec![v(&a), v(&bb)])), l(vec![v(&a)])])),
+        18 => mac(Mac::Map, l(vec![u(1000), u(2000)]), &a, l(vec![mac(Mac::Map, l(vec![f(1000.0), f(2000.0), f(3000.0)]), &bb, l(vec![v(&a), v(&bb)])), l(vec![v(&a)])])),
+        19 => mac(Mac::Exists, l(vec![i(0), i(2), i(3)]), &a, E::bin(O::Eq, v(&a), E::bin(O::Mul, v(&a), v(&a)))),
+        20 => mac(Mac::Map, l(vec![i(2), i(3)]), &a, mac(Mac::Exists, l(vec![i(1), i(5)]), &a, E::bin(O::Eq, v(&a), E::bin(O::Mul, v(&a), v(&a))))),
+        _ => E::bin(
+            O::Or,
+            mac(Mac::Exists, l(vec![i(1), i(5), i(25)]), &bb, E::bin(O::Eq, E::bin(O::Mul, v(&a), v(&a)), v(&bb))),
+            mac(Mac::All, l(vec![i(1), i(5)]), &a, mac(Mac::Exists, l(vec![i(1), i(25)]), &bb, E::bin(O::Eq, v(&bb), E::bin(O::Mul, v(&a), v(&a))))),
+        ),
     }
 }
 
@@ -385,6 +396,76 @@ fn check_program(src: &str, e: &E, vars: &[(String, V)], functions: bool, extra_
     pass_n(shadow, cl)
 }
 
+/// one compiled program executed against several contexts in turn: each execution sees that context's bindings only
+#[derive(Clone, Debug, Serialize, Deserialize)]
+pub struct Multi {
+    pub program: u8,
+    pub name: u8,
+    /// per execution: the binding of the name (index into `multi_value`, 0 = not bound) and whether a same-named function is registered
+    pub runs: Vec<(u8, bool)>,
+}
+
+fn multi_value(i: u8) -> Option<V> {
+    match i {
+        0 => None,
+        1 => Some(V::List(vec![V::Int(1), V::Int(2)])),
+        2 => Some(V::List(vec![V::Int(20)])),
+        3 => Some(V::List(vec![])),
+        4 => Some(V::Int(7)),
+        _ => Some(V::List(vec![V::Int(-5), V::Int(0), V::Int(5)])),
+    }
+}
+
+const MULTI_PROGRAMS: usize = 9;
+
+fn multi_program(k: u8, a: &str) -> E {
+    use crate::model::expr::{b, Mac, Op as O};
+    let v = || E::Var(a.to_string());
+    let i = |k: i64| E::Lit(V::Int(k));
+    let mac = |m: Mac, r: E, body: E| E::Macro(m, b(r), a.to_string(), vec![body]);
+    match k {
+        0 => mac(Mac::Map, v(), E::bin(O::Mul, v(), i(2))),
+        1 => mac(Mac::All, v(), E::bin(O::Gt, v(), i(0))),
+        2 => mac(Mac::Map, mac(Mac::Filter, v(), E::bin(O::Gt, v(), i(1))), E::bin(O::Add, v(), i(1))),
+        3 => mac(Mac::Exists, v(), E::bin(O::Eq, v(), i(20))),
+        4 => mac(Mac::Map, E::List(vec![v()]), v()),
+        5 => E::bin(O::Add, v(), v()),
+        6 => E::call("size", vec![v()]),
+        7 => E::List(vec![E::call(a, vec![]), i(1)]),
+        _ => mac(Mac::ExistsOne, v(), E::bin(O::Gt, v(), i(1))),
+    }
+}
+
+pub fn check_multi(c: &Multi) -> Outcome {
+    let name = NAMES[c.name as usize % 3];
+    let e = multi_program(c.program, name);
+    let src = e.render();
+    let prog = match sut::compile(&src) {
+        Ok(Ok(p)) => p,
+        Ok(Err(e)) => return fail(format!("`{src}` does not compile: {e}")),
+        Err(p) => return fail(format!("`{src}`: compile {}", p.short())),
+    };
+    let mut distinct = std::collections::BTreeSet::new();
+    for (k, (vi, func)) in c.runs.iter().enumerate() {
+        let vars: Vec<(String, V)> = multi_value(*vi).map(|v| vec![(name.to_string(), v)]).unwrap_or_default();
+        let cf: Vec<(String, V)> = if *func { vec![(name.to_string(), V::Int(100))] } else { vec![] };
+        let variants = crate::props::c03::model_variants_with(&e, &vars, &vec![], false, &cf);
+        if let Err(Stop::Unsupported(w)) = &variants[0].0 {
+            return Outcome::Skip(w);
+        }
+        let mut ctx = sut::ctx_with(&vars);
+        if *func {
+            ctx.add_function(name, || 100i64);
+        }
+        let got = sut::exec(&prog, &ctx);
+        if !variants.iter().any(|(m, _)| agree(m, &got)) {
+            return fail(format!("execution {k} of the one compiled program `{src}` against {vars:?}{}: lexical scoping gives {:?}, interpreter gives {} (earlier executions ran against {:?})", if *func { " (+ a function of that name)" } else { "" }, variants[0].0, got.show(), &c.runs[..k]));
+        }
+        distinct.insert((*vi, *func));
+    }
+    pass_n(distinct.len() >= 2, vec![if distinct.len() >= 2 { "one-program-several-different-contexts" } else { "one-program-one-context" }])
+}
+
 pub fn check_template(t: &Tmpl) -> Outcome {
     let src = instantiate(t);
     let e = template_expr(t);
@@ -400,7 +481,7 @@ pub fn run(r: &mut Runner) {
     r.rule = "histories: sequences over Define(name in {x,y,z}, value, via add_variable | add_variable_from_value), OpenInner, CloseInner, nesting <= 3, run as a recursive \
               interpreter (a child scope borrows its parent); all well-nested sequences up to length 6 (quick) / 7 (thorough) exhaustively, with and without same-named \
               functions registered at the root, plus random longer ones. After every operation get_variable and a one-name program must return the innermost binding or \
-              UndeclaredReference, and after a scope is dropped the parent answers as before. Programs: twelve templates with up to three nested macros instantiated with all 27 \
+              UndeclaredReference, and after a scope is dropped the parent answers as before. One compiled program executed against every sequence of three contexts (name unbound / bound to five values, same-named function or not). Programs: 22 templates with up to three nested macros instantiated with all 27 \
               assignments of {x,y,z} to their binders under all 8 subsets of context-defined names (exhaustive), plus random typed programs whose binders reuse context names. \
               Oracle: lexical scoping in the reference evaluator, and the context read back unchanged. Non-trivial: a binder shadows a live outer binding used on both sides / an inner \
               scope redefines an outer name; distinct by (history) or (program, context)."
@@ -462,6 +543,16 @@ pub fn run(r: &mut Runner) {
             Tmpl { template, names: [(a % 3) as u8, ((a / 3) % 3) as u8, (a / 9) as u8], defined, functions }
         },
         check_template,
+    );
+    // one compiled program x every sequence of three contexts (6 bindings x function registered or not)
+    r.sweep_fn(
+        "one-program-several-contexts",
+        MULTI_PROGRAMS as u64 * 3 * 12 * 12 * 12,
+        move |i| {
+            let run = |k: u64| ((k % 6) as u8, k % 12 >= 6);
+            Multi { program: (i / 5184) as u8, name: (i / 1728 % 3) as u8, runs: vec![run(i / 144 % 12), run(i / 12 % 12), run(i % 12)] }
+        },
+        check_multi,
     );
     r.random(
         "random-typed-programs-reusing-names",
